@@ -29,7 +29,12 @@ def build_cases(tier, seed):
         cs += fam.prof_list(R3, 3, (1, 2), c3)
         cs += fam.prof_list(R4, 2, (1, 2), c4)
         cs += fam.prof_list(fam.perm_family(4), 3, (1,), c4)
-        famtxt = "Prof(Rank(3),3,{1,2}) + Prof(Rank(4),2,{1,2}) + Prof(Perm(4),3,{1})"
+        cs += fam.prof_list(R3, 2, (F(1, 2), F(3, 2)), c3)
+        c5 = fam.cands(5)
+        cs += fam.prof_list(fam.perm_family(5), 2, (1,), c5)[::5]
+        cs += fam.prof_list(fam.rank_family(5)[::7], 2, (1, 2), c5)[::9]
+        famtxt = ("Prof(Rank(3),3,{1,2}) + Prof(Rank(4),2,{1,2}) + Prof(Perm(4),3,{1}) + Prof(Rank(3),2,{1/2,3/2}) + every 5th of "
+                  "Prof(Perm(5),2,{1}) + a slice of two-type profiles over every 7th ranking of Rank(5)")
     else:
         cs += fam.prof_list(R3, 3, (1, 2, F(1, 2), F(3, 2)), c3)
         cs += fam.prof_list(R4, 3, (1,), c4)
